@@ -98,3 +98,9 @@ CLAIMED.update({
    note="trusted: rustc MIR iterator types; syn parse; rustc type-checks generated calls"),
 })
 NA.pop("C02", None)
+CLAIMED.update({
+ "C14": dict(level="other", design="§9.5 C14", technique="static analysis: sibling rule over the three passes of build::action::emit_inline_action_code (MIR: forward iteration, identical counter arithmetic) + template rules binding placeholders to the counters",
+   text="Decides the clause 'the synthetic action pairs inlined results and original arguments positionally and runs inlined actions left to right, fallible ones with `?`'. Language/conflict equivalence of the inlined grammar and the cross product in normalize::inline are NOT decided.",
+   note="trusted: rustc MIR; syn parse"),
+})
+NA.pop("C14", None)
